@@ -47,7 +47,14 @@ fn site_of(pos: usize, l: &Layout) -> &'static str {
 pub fn run(ctx: &Ctx, rep: &mut Reporter) {
     for case_idx in ctx.case_range() {
         let mut rng = ctx_rng(ctx, case_idx);
-        let ast = Gen::new(&mut rng, cfg_for(case_idx, ctx.slow())).ast();
+        let ast = if case_idx % 50 == 3 && !ctx.slow() {
+            // sections far larger than any internal block size (members > 64 KiB)
+            rep.count("large_mappings", 1);
+            let n = 2_000 + rng.below(2_000);
+            pgvcore::ast::huge_group_ast(&mut rng, n)
+        } else {
+            Gen::new(&mut rng, cfg_for(case_idx, ctx.slow())).ast()
+        };
         if !is_representable(&ast) {
             continue;
         }
